@@ -33,6 +33,12 @@ def run(ctx):
     c, p, res = ctx.c, ctx.p, ctx.r
     for v_ in VIEWS:
         FLAGS[v_] = roles(ctx, v_).flag
+    # ---- R8 intake never mutates the event object the caller handed in (seeded change C04-d) --------------------------------------
+    # an event dict whose 'type' key was popped on its first send is accepted a second time as 'UnnamedEvent' and silently lost
+    shared.definition_is_read_only(ctx, "R8", ("base_interpreter", "interpreter", "sync_interpreter"),
+                                   "the caller's event object is changed by sending it: the second send of the same mapping is queued as a different "
+                                   "event (its type is gone), so an accepted event is never processed",
+                                   only_funcs={"_prepare_event", "_coerce_event", "send", "send_events"})
     # ---- R1 flag pairing ------------------------------------------------------
     for v in VIEWS:
         r = roles(ctx, v)
